@@ -145,16 +145,16 @@ int enc_run(const enccfg_t *c, encres_t *r){
         vorbis_encode_ctl(&vi,OV_ECTL_RATEMANAGE2_SET,&a);
       }
     }
+    { /* read the management settings back while the set-up is still open (the request is refused once it is frozen) */
+      struct ovectl_ratemanage2_arg a; memset(&a,0,sizeof a);
+      if(vorbis_encode_ctl(&vi,OV_ECTL_RATEMANAGE2_GET,&a)==0){
+        r->managed=a.management_active; r->rm_min_kbps_x1000=a.bitrate_limit_min_kbps*1000;
+        r->rm_max_kbps_x1000=a.bitrate_limit_max_kbps*1000; r->rm_avg=a.bitrate_average_kbps*1000;
+        r->rm_reservoir_bits=a.bitrate_limit_reservoir_bits; r->rm_bias=a.bitrate_limit_reservoir_bias;
+      }
+    }
     ret=vorbis_encode_setup_init(&vi);
     if(ret){ r->setup_ret=ret; vorbis_info_clear(&vi); return ret; }
-  }
-  {
-    struct ovectl_ratemanage2_arg a; memset(&a,0,sizeof a);
-    if(vorbis_encode_ctl(&vi,OV_ECTL_RATEMANAGE2_GET,&a)==0){
-      r->managed=a.management_active; r->rm_min_kbps_x1000=a.bitrate_limit_min_kbps*1000;
-      r->rm_max_kbps_x1000=a.bitrate_limit_max_kbps*1000; r->rm_avg=a.bitrate_average_kbps*1000;
-      r->rm_reservoir_bits=a.bitrate_limit_reservoir_bits; r->rm_bias=a.bitrate_limit_reservoir_bias;
-    }
   }
   r->channels=vi.channels; r->rate=vi.rate;
   r->bitrate_upper=vi.bitrate_upper; r->bitrate_nominal=vi.bitrate_nominal;
@@ -443,6 +443,7 @@ int ref_link_of(const refdec_t *r, int64_t pos){
 static struct {
   long id; long evals; int nb; char b[MAXB][96]; int nv; char vprop[MAXV][8]; char vkey[MAXV][160]; char vdet[MAXV][400];
   int nc; char cn[48][40]; long cv[48]; char sample[900]; long dropped_v;
+  int nm; char mn[40][56]; double mlo[40], mhi[40];
 } R;
 static void jesc(const char *s){
   for(;*s;s++){ unsigned char c=(unsigned char)*s;
@@ -469,6 +470,11 @@ void res_count(const char *name, long n){
   for(int i=0;i<R.nc;i++) if(!strcmp(R.cn[i],name)){ R.cv[i]+=n; return; }
   if(R.nc<48){ snprintf(R.cn[R.nc],sizeof R.cn[0],"%s",name); R.cv[R.nc++]=n; }
 }
+void res_metric(const char *name, double v){
+  if(v!=v) return;
+  for(int i=0;i<R.nm;i++) if(!strcmp(R.mn[i],name)){ if(v<R.mlo[i])R.mlo[i]=v; if(v>R.mhi[i])R.mhi[i]=v; return; }
+  if(R.nm<40){ snprintf(R.mn[R.nm],sizeof R.mn[0],"%s",name); R.mlo[R.nm]=R.mhi[R.nm]=v; R.nm++; }
+}
 void res_sample(const char *fmt, ...){ va_list ap; va_start(ap,fmt); vsnprintf(R.sample,sizeof R.sample,fmt,ap); va_end(ap); }
 void res_end(void){
   printf("R {\"case\":%ld,\"evals\":%ld,\"buckets\":[",R.id,R.evals);
@@ -477,6 +483,8 @@ void res_end(void){
   for(int i=0;i<R.nv;i++){ printf("%s{\"prop\":\"%s\",\"key\":\"",i?",":"",R.vprop[i]); jesc(R.vkey[i]); printf("\",\"detail\":\""); jesc(R.vdet[i]); printf("\"}"); }
   printf("],\"counts\":{");
   for(int i=0;i<R.nc;i++){ printf("%s\"",i?",":""); jesc(R.cn[i]); printf("\":%ld",R.cv[i]); }
+  printf("},\"metrics\":{");
+  for(int i=0;i<R.nm;i++){ printf("%s\"",i?",":""); jesc(R.mn[i]); printf("\":[%.6g,%.6g]",R.mlo[i],R.mhi[i]); }
   printf("},\"sample\":\""); jesc(R.sample); printf("\"}\n@done %ld\n",R.id);
   fflush(stdout);
 }
@@ -485,8 +493,9 @@ void res_end(void){
 static void on_vtalrm(int s){ (void)s; char b[64]; int n=snprintf(b,sizeof b,"\n@cpu %ld\n",vh_cur_case); if(write(1,b,n)<0){} _exit(75); }
 void vh_set_cpu_budget(int seconds){
   struct itimerval it; memset(&it,0,sizeof it);
-  signal(SIGVTALRM,on_vtalrm);
-  it.it_value.tv_sec=seconds; setitimer(ITIMER_VIRTUAL,&it,NULL);
+  /* user+system CPU of this process (page-fault-heavy loops spend their time in the kernel) */
+  signal(SIGPROF,on_vtalrm);
+  it.it_value.tv_sec=seconds; setitimer(ITIMER_PROF,&it,NULL);
 }
 void vh_dump(const char *name, const void *p, size_t n){
   const char *d=getenv("VH_DUMP"); if(!d||!*d) return;
